@@ -232,6 +232,16 @@ def execute(case):
                         obj = construct("pattern", op.get("t", 0))
                     else:
                         obj = load_bytes(obj_bytes(so))
+                elif how == "twins":
+                    # a *loaded* project that contains two modules with byte-identical,
+                    # non-default payload (build, mutate, clone the module, save, load)
+                    sess = builder.Session(layout=case.get("layout", 1))
+                    tn = ("MultiCtl", "MetaModule", "WaveShaper", "MultiSynth", "Sampler", "SpectraVoice", "Fmx", "Generator")[op.get("t", 0) % 8]
+                    sess.apply({"k": "mod", "t": builder.TYPE_NAMES.index(tn)})
+                    sess.apply({"k": "twin", "m": 0, "s": op.get("t", 0), "vs": [seeds.derive(op.get("t", 0), j) >> 2 for j in range(3)], "pay": True})
+                    obj = load_bytes(sess.project.read())
+                elif how == "loadfile_unused":
+                    pass
                 else:  # loadfile: the same fixture twice gives two independent objects
                     names = files.fixture_names()
                     obj = load_bytes(files.fixture_bytes(names[op.get("t", 0) % len(names)]))
@@ -246,8 +256,26 @@ def execute(case):
             ai = op.get("a", 0) % len(actors)
             a = actors[ai]
             if k == "mutate":
+                acting_idx = None
+                if isinstance(a["obj"], Project) and op.get("bop", {}).get("k") == "set":
+                    ms_ = [m for m in a["obj"].modules if m is not None]
+                    acting = ms_[op["bop"]["m"] % len(ms_)]
+                    acting_idx = acting.index
+                    acting_is_multictl = type(acting).__name__ == "MultiCtl"
                 label = mutate(a["obj"], op, case.get("layout", 1))
                 snap, b = obj_digest(a["obj"])
+                if acting_idx is not None and acting_is_multictl and ":ctl." in label:
+                    acting_idx = None  # a MultiCtl's controllers legitimately drive its linked targets
+                if acting_idx is not None:
+                    # isolation between the modules of ONE project: a module-local edit must not
+                    # change any other module of the same project
+                    old = a["snap"]
+                    for path in old:
+                        if len(path) > 2 and path[0] == "mod" and path[1] != acting_idx and snap.get(path, old[path]) != old[path]:
+                            violations.append(_v("non_interference", path="sibling:" + snapshot.path_class(path[2:]),
+                                                 detail={"op": i, "step": "mutate:" + label, "acting_module": acting_idx, "changed_module": path[1], "obtained": a["how"],
+                                                         "before": snapshot.short(old[path]), "after": snapshot.short(snap.get(path))}))
+                            break
                 changed = snap != a["snap"] or b != a["bytes"]
                 a["snap"], a["bytes"] = snap, b
                 if changed and len(actors) > 1:
@@ -351,7 +379,7 @@ def generate(seed, i, tier="quick"):
     focus_kind = r.choice(KINDS)
 
     def obtain(first):
-        how = "new" if first else r.choice(["new", "new", "clone", "load", "loadfile"])
+        how = r.choice(["new", "new", "new", "twins"]) if first else r.choice(["new", "new", "clone", "load", "loadfile", "twins"])
         kind = focus_kind if r.random() < 0.7 else r.choice(KINDS)
         t = focus_t if r.random() < 0.7 else r.randrange(1000)
         return {"k": "obtain", "how": how, "kind": kind, "t": t, "of": r.randrange(4)}
